@@ -5,6 +5,10 @@ Correspondence (B): the real `check_auth` / `basic_auth` / `digest_auth`, `Sessi
 `MemoryStore`, `VirtualHosts._on_request`  vs.  CV.Model.Auth / Session / VHost.
 Spec on impl (C), evaluated by the Lean driver on the implementation's own behaviour:
   auth     `soundOn` (granted => credentials verify against a table entry) and `completeOn`
+  authseq  2-3 check_auth/basic_auth/digest_auth calls on ONE request object with different tables /
+           realms / encrypt functions: the model (a pure function of header, table, realm, encrypt) and
+           the same two predicates are applied to every call on its own; a call whose verdict breaks
+           them in the sequence but not on a fresh request -> auth-verdict-depends-on-earlier-call
   session  `traceOk` (honoured id => same fingerprint as everybody who used it, contents = what
            was stored under it; otherwise a fresh unique id and an empty session)
   vhost    plain comparison: with a gateway list and a remote address outside it, the path
@@ -18,6 +22,7 @@ import base64
 import hashlib
 import inspect
 import itertools
+import random
 import textwrap
 import uuid as uuidmod
 from urllib.parse import urljoin
@@ -113,16 +118,12 @@ def users_obj(users, form):
     return table
 
 
-def impl_auth(c, front):
-    """-> (granted, login_if_True, canonical observation)"""
+def impl_call(rq, rs, front, realm, users, enc):
+    """one call of a front end on the given request -> (granted, login_if_True, canonical observation, exception)"""
     from circuits.web import tools
-    hdrs = [] if c['hdr'] is None else [('Authorization', c['hdr'])]
-    rq, rs = mk_request(hdrs, method=c['method'])
-    users = users_obj(c['users'], c.get('form', 'dict'))
-    enc = ENC_FUN[c['enc']]
     try:
         if front == 'check':
-            r = tools.check_auth(rq, rs, c['realm'], users, enc)
+            r = tools.check_auth(rq, rs, realm, users, enc)
             if r is True:
                 obs = 'ok:' + (sx(rq.login) if isinstance(rq.login, str) else '?' + repr(rq.login))
             elif r is False:
@@ -133,17 +134,24 @@ def impl_auth(c, front):
                 obs = 'falsy:' + type(r).__name__
             granted = bool(r)
         elif front == 'basic':
-            r = tools.basic_auth(rq, rs, c['realm'], users, enc)
+            r = tools.basic_auth(rq, rs, realm, users, enc)
             obs = 'let' if r is None else ('unauth' if type(r).__name__ == 'unauthorized' else 'other:' + type(r).__name__)
             granted = r is None
         else:
-            r = tools.digest_auth(rq, rs, c['realm'], users)
+            r = tools.digest_auth(rq, rs, realm, users)
             obs = 'let' if r is None else ('unauth' if type(r).__name__ == 'unauthorized' else 'other:' + type(r).__name__)
             granted = r is None
     except Exception as e:
         return False, None, 'raised', type(e).__name__
     login = rq.login if (granted and isinstance(rq.login, str)) else None
     return granted, login, obs, None
+
+
+def impl_auth(c, front):
+    """a fresh request, one call -> (granted, login_if_True, canonical observation, exception)"""
+    hdrs = [] if c['hdr'] is None else [('Authorization', c['hdr'])]
+    rq, rs = mk_request(hdrs, method=c['method'])
+    return impl_call(rq, rs, front, c['realm'], users_obj(c['users'], c.get('form', 'dict')), ENC_FUN[c['enc']])
 
 
 def classify_bypass(c):
@@ -451,6 +459,249 @@ def auth_cases(ctx):
             hdr, tag = rng.choice(FIXED_HEADERS), 'fixed'
         add(enc, realm, method, users, hdr, tag, form)
     return cases
+
+
+# ---------------------------------------------------------------------------------------
+# several checks on ONE request object (no state may leak from one call into the next)
+# ---------------------------------------------------------------------------------------
+#
+# The statement makes the verdict of a check a function of the request's credentials and of the
+# table / realm (and encrypt) *configured for that check*.  An application may check one request
+# several times with different configurations (site-wide filter, then a stricter controller), so
+# every call of a sequence is judged on its own: model and spec predicates get exactly the
+# arguments of that call and nothing of the calls before it.
+
+SEQ_CLAUSE = 'auth-verdict-depends-on-earlier-call'
+
+
+def call_view(c, call):
+    """the single-check case that call `call` of sequence `c` is, taken on its own"""
+    return {'kind': 'auth', 'enc': call['enc'], 'realm': call['realm'], 'method': c['method'],
+            'users': call['users'], 'hdr': c['hdr'], 'form': call.get('form', 'dict'), 'tag': 'seq-call'}
+
+
+def impl_seq(c, calls):
+    """run `calls` one after the other on one and the same request object"""
+    hdrs = [] if c['hdr'] is None else [('Authorization', c['hdr'])]
+    rq, rs = mk_request(hdrs, method=c['method'])
+    out = []
+    for call in calls:
+        out.append(impl_call(rq, rs, call['front'], call['realm'],
+                             users_obj(call['users'], call.get('form', 'dict')), ENC_FUN[call['enc']]))
+    return out
+
+
+def seq_differing(a, b):
+    d = []
+    if dict(map(tuple, a['users'])) != dict(map(tuple, b['users'])):
+        d.append('table')
+    if a['realm'] != b['realm']:
+        d.append('realm')
+    if a['enc'] != b['enc']:
+        d.append('encrypt')
+    if a['front'] != b['front']:
+        d.append('front-end')
+    return d
+
+
+def seq_letter(model_obs):
+    if model_obs.startswith('ok:') or model_obs == 'let':
+        return 'G'
+    if model_obs == 'raised':
+        return 'X'
+    if model_obs == 'errobj':
+        return 'E'
+    return 'R'
+
+
+def seq_minimise(c, k, bad):
+    """smallest sub-sequence ending in call k in which call k still shows the verdict `bad`"""
+    calls = c['calls']
+    for j in range(k):
+        try:
+            r = impl_seq(c, [calls[j], calls[k]])[-1]
+        except Exception:  # noqa: BLE001
+            continue
+        if (r[0], r[1]) == bad:
+            return dict(c, calls=[calls[j], calls[k]]), [j]
+    return dict(c, calls=calls[:k + 1]), list(range(k))
+
+
+def eval_authseq(ctx, cases):
+    ops, impl = [], []
+    for c in cases:
+        btok, ktok, _kv = leaves_of(c['hdr'])
+        rec = impl_seq(c, c['calls'])
+        o = []
+        for call, (granted, login, _obs, _exc) in zip(c['calls'], rec):
+            users = ' '.join(f'{sx(u)},{sx(p)}' for u, p in call['users'])
+            base = f"{sx(call['realm'])} {sx(c['method'])} {opt(c['hdr'])} {btok} {ktok}"
+            senc = 'dflt' if call['front'] == 'digest' else call['enc']
+            o.append(f"auth current {call['enc']} {base} {users}".rstrip())
+            o.append(f"spec {senc} {base} {1 if granted else 0} {opt(login)} {users}".rstrip())
+        ops.append(o)
+        impl.append(rec)
+    answers = ctx.driver.batch('auth', ops)
+    for c, rec, ans in zip(cases, impl, answers):
+        if any(a == 'bad-op' for a in ans):
+            raise RuntimeError(f'driver rejected an auth op for sequence {c!r}')
+        ok = True
+        letters = []
+        reported = False
+        for k, (call, (granted, login, obs, exc)) in enumerate(zip(c['calls'], rec)):
+            model = dict(p.split('=', 1) for p in ans[2 * k].split(' '))[call['front']]
+            letters.append(seq_letter(model))
+            if model != obs:
+                ok = False
+                ctx.disagree(c, {'where': f"authseq.call{k}.{call['front']}", 'impl': obs + (f' ({exc})' if exc else ''),
+                                 'model': model, 'note': 'model applied to this call alone'})
+            a = ans[2 * k + 1]
+            if exc:
+                ctx.count('auth_exception', exc)
+            if not a.startswith('fail') or reported:
+                continue
+            reported = True
+            view = call_view(c, call)
+            fresh = impl_auth(view, call['front'])
+            if (fresh[0], fresh[1]) == (granted, login):
+                # the same call on a fresh request gives the same wrong verdict: not a matter of history
+                if a == 'fail bypass':
+                    ctx.violate(view, classify_bypass(view),
+                                f"{call['front']}: granted access to Authorization={c['hdr']!r} although no entry of "
+                                f"users={call['users']!r} (realm {call['realm']!r}) verifies it")
+                else:
+                    ctx.violate(view, 'valid-credentials-refused',
+                                f"{call['front']}: well-formed credentials {c['hdr']!r} verifying against "
+                                f"users={call['users']!r} were not accepted (observed {obs})")
+                continue
+            small, earlier = seq_minimise(c, k, (granted, login))
+            verdict = 'granted' if granted and not fresh[0] else ('refused' if fresh[0] and not granted else 'login-differs')
+            before = 'grant' if any(rec[j][0] for j in earlier) else 'refusal'
+            prev = c['calls'][earlier[-1]]
+            diff = '+'.join(seq_differing(prev, call)) or 'nothing'
+            pname = {'check': 'check_auth', 'basic': 'basic_auth', 'digest': 'digest_auth'}
+            ctx.violate(small, f'{SEQ_CLAUSE}({verdict}-after-{before})',
+                        f"{pname[call['front']]}(realm={call['realm']!r}, users={call['users']!r}, encrypt={call['enc']}) on a request "
+                        f"with Authorization={c['hdr']!r} answered {obs!r} (granted={granted}, login={login!r}) after "
+                        f"{pname[prev['front']]}(realm={prev['realm']!r}, users={prev['users']!r}, encrypt={prev['enc']}) had answered "
+                        f"{rec[earlier[-1]][2]!r} on the same request object; the same call on a fresh request answers {fresh[2]!r} "
+                        f"(granted={fresh[0]}) - the verdict must depend only on the credentials and on the table/realm/encrypt of "
+                        f"this call (differing from the earlier call: {diff}); spec clause broken in the sequence: {a[5:]}")
+        n = len(c['calls'])
+        ctx.count('authseq_calls', n)
+        ctx.count('authseq_expected', '>'.join(letters))
+        ctx.count('authseq_tag', c.get('tag', '?'))
+        for x, y in zip(c['calls'], c['calls'][1:]):
+            ctx.count('authseq_differing', '+'.join(seq_differing(x, y)) or 'same-configuration')
+        ctx.count('authseq_fronts', '>'.join(call['front'] for call in c['calls']))
+        ctx.case(c, nontrivial=c['hdr'] is not None and n > 1, validated=ok)
+
+
+def seq_header_digest(user, pw, realm, method, qop):
+    f = {'username': user, 'realm': realm, 'nonce': 'n0', 'uri': '/admin'}
+    if qop:
+        f.update(qop=qop, nc='00000001', cnonce='cn')
+    f['response'] = rfc_digest(user, realm, pw, method, f)
+    return render_digest(None, list(f.items()), quote=True)
+
+
+def authseq_directed():
+    """the same on every seed and in both tiers"""
+    rnd = random.Random(0xC20)
+    cases = []
+    clear = {'site': {'alice': 'wonder', 'root': 's3cret'}, 'admin': {'root': 's3cret'},
+             'changed': {'alice': 'changed', 'root': 's3cret'}, 'empty': {}}
+
+    def stored(name, enc):
+        return [[u, enc_store(enc, u, p)] for u, p in clear[name].items()]
+
+    # (table, what the table holds, encrypt handed to the call, realm)
+    basic_cfg = [(t, e, e, r) for t, r in (('site', 'Site'), ('admin', 'Admin'), ('changed', 'Site'), ('empty', 'Admin'))
+                 for e in ('ident', 'hash1')]
+    basic_cfg += [('site', 'hash1', 'ident', 'Site'), ('site', 'ident', 'hash2', 'Admin')]
+    digest_cfg = [(t, 'ident', 'dflt', r) for t in ('site', 'admin', 'changed', 'empty') for r in ('Site', 'Admin')]
+    fronts = ('check', 'basic', 'digest')
+
+    def mk(cfg, front):
+        t, se, ce, r = cfg
+        return {'front': front, 'enc': ce, 'realm': r, 'users': stored(t, se), 'form': 'dict'}
+
+    groups = [
+        (basic_cfg, [('GET', 'Basic ' + b64('alice:wonder')), ('POST', 'Basic ' + b64('root:s3cret')),
+                     ('GET', 'Basic ' + b64('mallory:x'))]),
+        (digest_cfg, [('GET', seq_header_digest('alice', 'wonder', 'Site', 'GET', None)),
+                      ('POST', seq_header_digest('alice', 'wonder', 'Site', 'POST', 'auth')),
+                      ('GET', seq_header_digest('root', 's3cret', 'Admin', 'GET', 'auth')),
+                      ('GET', seq_header_digest('mallory', 'None', 'Site', 'GET', None))]),
+    ]
+    for cfgs, hdrs in groups:
+        for method, hdr in hdrs:
+            # every ordered pair of configurations (incl. the same one twice) x every pair of front ends
+            for f1, f2 in itertools.product(fronts, fronts):
+                for c1, c2 in itertools.product(cfgs, cfgs):
+                    cases.append({'kind': 'authseq', 'method': method, 'hdr': hdr, 'tag': 'directed-pair',
+                                  'calls': [mk(c1, f1), mk(c2, f2)]})
+            # triples (fixed sample)
+            for _ in range(120):
+                cases.append({'kind': 'authseq', 'method': method, 'hdr': hdr, 'tag': 'directed-triple',
+                              'calls': [mk(rnd.choice(cfgs), rnd.choice(fronts)) for _ in range(3)]})
+    # without / with a degenerate Authorization header nothing is ever granted, whatever came before
+    for hdr in (None, 'Basic', 'Digest username="alice"', 'Bearer abc', ''):
+        for c1, c2 in itertools.product(basic_cfg[:4] + digest_cfg[:2], repeat=2):
+            f1, f2 = rnd.choice(fronts), rnd.choice(fronts)
+            cases.append({'kind': 'authseq', 'method': 'GET', 'hdr': hdr, 'tag': 'directed-degenerate',
+                          'calls': [mk(c1, f1), mk(c2, f2)]})
+    return cases
+
+
+def authseq_random(ctx):
+    rng = ctx.rng
+    cases = []
+    for _ in range(700 * ctx.scale):
+        enc = rng.choice(ENCS)
+        realm = rng.choice(REALMS)
+        method = rng.choice(METHODS)
+        clear, users = gen_table(rng, enc)
+        k = rng.random()
+        digest = False
+        if k < 0.45:
+            hdr, tag = gen_basic(rng, clear, users)
+        elif k < 0.95:
+            digest = True
+            hdr, tag = gen_digest(rng, clear, realm, method)
+        else:
+            hdr, tag = rng.choice(FIXED_HEADERS + [None]), 'fixed'
+        calls = []
+        for _i in range(rng.choice([2, 2, 3])):
+            # a variation of the configuration the header was made for
+            cl = dict(clear)
+            m = rng.random()
+            if m < 0.30:
+                pass
+            elif m < 0.50 and cl:
+                del cl[rng.choice(sorted(cl))]
+            elif m < 0.65 and cl:
+                cl[rng.choice(sorted(cl))] = rng.choice(PWS + ['changed'])
+            elif m < 0.80:
+                cl[rng.choice(USERS + UNKNOWN)] = rng.choice(PWS)
+            elif m < 0.90:
+                cl = {}
+            else:
+                cl = {u: rng.choice(PWS) for u in rng.sample(USERS, rng.randint(1, 3))}
+            e_call = enc if rng.random() < 0.6 else rng.choice(ENCS)
+            e_store = e_call if rng.random() < 0.85 else rng.choice(ENCS)
+            if digest and rng.random() < 0.8:
+                e_store = 'ident'            # digest tables hold clear passwords
+            r_call = realm if rng.random() < 0.6 else rng.choice(REALMS)
+            calls.append({'front': rng.choice(['check', 'check', 'basic', 'digest']), 'enc': e_call, 'realm': r_call,
+                          'users': [[u, enc_store(e_store, u, p)] for u, p in cl.items()],
+                          'form': rng.choice(['dict', 'dict', 'callable-dict', 'callable-lookup'])})
+        cases.append({'kind': 'authseq', 'method': method, 'hdr': hdr, 'tag': 'random:' + tag, 'calls': calls})
+    return cases
+
+
+def authseq_cases(ctx):
+    return authseq_directed() + authseq_random(ctx)
 
 
 # ---------------------------------------------------------------------------------------
@@ -825,13 +1076,16 @@ def param_obligations(ctx):
 
 # ---------------------------------------------------------------------------------------
 
-EVAL = {'auth': eval_auth, 'md5': eval_md5, 'session': eval_session, 'vhost': eval_vhost}
+EVAL = {'auth': eval_auth, 'authseq': eval_authseq, 'md5': eval_md5, 'session': eval_session, 'vhost': eval_vhost}
 
 
 def run(ctx):
     ctx.rule = ('auth: fixed list of degenerate headers x 4 encrypt variants + systematic Digest grid (user known/unknown x '
                 'password right/wrong/None x qop x algorithm x realm, each field dropped in turn) + random headers from the '
                 'Basic/Digest grammar over random tables of 0-3 users; each case runs check_auth, basic_auth and digest_auth; '
+                'authseq: 2-3 calls on ONE request object - all ordered pairs of 10 Basic / 8 Digest configurations (table x '
+                'realm x encrypt, incl. the same one twice) x 9 front-end pairs x 7 headers + fixed triples (same on every seed '
+                'and tier) + random variations of a random configuration; every call judged on its own; '
                 'session: all pairs over 3 addresses x 3 agents x 10 cookie shapes (exhaustive) + random histories of 2-8 '
                 'requests; vhost: 6 gateway configurations x 3 remotes x 4 Host x 10 X-Forwarded-Host x 2 paths (exhaustive) '
                 '+ random; non-trivial = a header / more than one request / an X-Forwarded-Host is present; distinct = distinct case')
@@ -851,8 +1105,8 @@ def run(ctx):
         'trusted_gateways=None means "no restriction" (documented default)',
     ]
     param_obligations(ctx)
-    groups = [('md5', md5_cases(ctx)), ('auth', auth_cases(ctx)), ('session', session_cases(ctx)),
-              ('vhost', vhost_cases(ctx))]
+    groups = [('md5', md5_cases(ctx)), ('auth', auth_cases(ctx)), ('authseq', authseq_cases(ctx)),
+              ('session', session_cases(ctx)), ('vhost', vhost_cases(ctx))]
     corpus = ctx.corpus()
     for c in corpus:
         EVAL[c['kind']](ctx, [c])
